@@ -1337,7 +1337,11 @@ theorem sd_unreachable_sources_pinned :
       [("x/accounts/self_delegatable_lockup/lockup.go", "BaseLockup.TrackDelegation", "57226956ca75a22c"),
        ("x/accounts/self_delegatable_lockup/lockup.go", "BaseLockup.TrackUndelegation", "28456dd62d49a297"),
        ("x/accounts/self_delegatable_lockup/lockup.go", "BaseLockup.SelfDelegate", "6f35b30ab35a160f"),
-       ("x/accounts/self_delegatable_lockup/lockup.go", "BaseLockup.WithdrawSelfDelegationUnbonded", "d7146a2bd077903a")] := by
+       ("x/accounts/self_delegatable_lockup/lockup.go", "BaseLockup.WithdrawSelfDelegationUnbonded", "d7146a2bd077903a"),
+       -- the x/selfdelegation handlers they call: exactly msg.Amount goes to the proxy and is delegated / comes back
+       -- (re-read against the model on 2026-10-01)
+       ("x/selfdelegation/keeper/msg_server_self_delegate.go", "msgServer.SelfDelegate", "092911bad3bf4947"),
+       ("x/selfdelegation/keeper/msg_server_withdraw_self_delegation_unbonded.go", "msgServer.WithdrawSelfDelegationUnbonded", "099812f8c396cadd")] := by
   decide
 
 end Sunrise.C12
